@@ -1,6 +1,8 @@
 package main
 
 import (
+	"runtime"
+	"runtime/debug"
 	"runtime/pprof"
 	"encoding/json"
 	"flag"
@@ -61,6 +63,7 @@ type Obligation struct {
 	mergeFuncs map[string]bool
 	Guards     []Guard                   `json:"guards"`
 	SingleSection []string               `json:"single_section"`
+	Clock      string                    `json:"clock"`
 	guards     map[string]*Guard
 
 	pkgPath string
@@ -263,15 +266,14 @@ type workItem struct {
 	preset []int
 }
 
-func runItem(l *Loaded, cfg *Config, it workItem, spawn func([]int)) *ObResult {
+func runItem(l *Loaded, cfg *Config, it workItem, spawn func([]int), sol *Solver, w *worker) *ObResult {
 	t0 := time.Now()
 	res := newObResult(it.ob.Name)
 	c := NewCtx()
-	sol := NewSolver(cfg.FeasTimeoutMs)
-	defer sol.Close()
+	sol.Reset()
 	e := &Exec{
-		c: c, prog: l.prog, sol: sol, ob: it.ob, zeroCache: map[types.Type]Value{}, globals: map[*ssa.Global]int{},
-		inputs: map[string]*Term{}, ghostSel: map[string]*Term{}, res: res, cfg: cfg, funcsHit: map[string]int{},
+		c: c, prog: l.prog, sol: sol, ob: it.ob, zeroCache: map[types.Type]Value{}, globals: w.globals, wk: w,
+		inputs: map[string]*Term{}, ghostSel: map[string]*Term{}, res: res, cfg: cfg, funcsHit: map[string]int{}, fnHits: map[*ssa.Function]int{},
 		preset: it.preset, spawn: spawn, mergeInfo: map[*ssa.Function]*mergeable{}, ipdomCache: map[*ssa.Function][]int{},
 		noConvert: map[*ssa.If]bool{}, regionOK: map[*ssa.If]bool{},
 	}
@@ -294,10 +296,14 @@ func runItem(l *Loaded, cfg *Config, it workItem, spawn func([]int)) *ObResult {
 				}
 			}
 		}()
+		e.prepareInit(st)
 		e.pushCall(st, FuncV{fn: it.ob.fn}, nil, nil)
 		e.run(st)
 	}()
 	res.Solver = sol.Stats
+	for fn, n := range e.fnHits {
+		e.funcsHit[fn.String()] += n
+	}
 	res.Funcs = e.funcsHit
 	res.Seconds = time.Since(t0).Seconds()
 	return res
@@ -321,6 +327,9 @@ func runObligations(l *Loaded, cfg *Config, obs []*Obligation) map[string]*ObRes
 		wg.Add(1)
 		go func() {
 			defer wg.Done()
+			sol := NewSolver(cfg.FeasTimeoutMs)
+			defer sol.Close()
+			wks := map[*Obligation]*worker{} // init snapshots are per obligation (stubs and policies differ)
 			for {
 				mu.Lock()
 				for len(queue) == 0 && pending > 0 {
@@ -344,7 +353,18 @@ func runObligations(l *Loaded, cfg *Config, obs []*Obligation) map[string]*ObRes
 				if cfg.Progress {
 					fmt.Fprintf(os.Stderr, "[start] %s preset=%v\n", it.ob.Name, it.preset)
 				}
-				r := runItem(l, cfg, it, spawn)
+				var r *ObResult
+				if time.Now().After(cfg.Deadline) {
+					r = newObResult(it.ob.Name)
+					r.Aborted = "wall-clock budget of the check exhausted"
+				} else {
+					wk := wks[it.ob]
+					if wk == nil {
+						wk = &worker{globals: map[*ssa.Global]int{}, ob: it.ob}
+						wks[it.ob] = wk
+					}
+					r = runItem(l, cfg, it, spawn, sol, wk)
+				}
 				if cfg.Progress {
 					fmt.Fprintf(os.Stderr, "[done ] %s preset=%v paths=%d queries=%d solver=%.1fs wall=%.1fs spawned=%d aborted=%q\n", it.ob.Name, it.preset, r.Paths, r.Solver.Queries, r.Solver.Seconds, r.Seconds, r.Spawned, r.Aborted)
 				}
@@ -618,6 +638,7 @@ func reproduced(f Failure, result string) bool {
 // ---------- main ----------
 
 func main() {
+	debug.SetGCPercent(600)
 	if len(os.Args) < 2 {
 		fmt.Fprintln(os.Stderr, "usage: gosmt check <property> <quick|thorough> | gosmt replay <file>")
 		os.Exit(2)
@@ -708,6 +729,12 @@ func cmdCheck(args []string) int {
 		pf, _ := os.Create(*cpuprof)
 		pprof.StartCPUProfile(pf)
 		defer pprof.StopCPUProfile()
+		runtime.SetBlockProfileRate(100000)
+		defer func() {
+			bf, _ := os.Create(*cpuprof + ".block")
+			pprof.Lookup("block").WriteTo(bf, 0)
+			bf.Close()
+		}()
 	}
 	t0 := time.Now()
 	if *budgetMin == 0 {
